@@ -35,15 +35,16 @@ def _releases(stmts):
 
 
 class _Walker:
-    def __init__(self, fname):
+    def __init__(self, fname, targets=TARGET_CALLS):
         self.fname = fname
+        self.targets = targets
         self.sites = []
         self.notifies = []
 
     def exprs(self, node, locked):
         for n in ast.walk(node):
             if isinstance(n, ast.Call) and isinstance(n.func, ast.Attribute):
-                if n.func.attr in TARGET_CALLS and _is_self_attr(n.func, n.func.attr):
+                if n.func.attr in self.targets and _is_self_attr(n.func, n.func.attr):
                     self.sites.append({"caller": self.fname, "target": n.func.attr, "lex": locked, "line": n.lineno})
                 if n.func.attr in ("notify", "notify_all") and _is_self_attr(n.func, "out_buffer_cv", n.func.attr):
                     self.notifies.append({"caller": self.fname, "kind": n.func.attr, "lex": locked, "line": n.lineno})
@@ -126,6 +127,30 @@ def channel_tables(channel_cls):
     for n in notifies:
         n["eff"] = bool(n["lex"] or held.get(n["caller"], False))
     return sites, notifies
+
+
+def method_call_sites(cls, method):
+    """[(caller, line, inside a self.lock region?)] for every call ``self.<method>()`` inside class ``cls``"""
+    src = textwrap.dedent(inspect.getsource(cls))
+    tree = ast.parse(src).body[0]
+    out = []
+    for fn in tree.body:
+        if isinstance(fn, ast.FunctionDef):
+            w = _Walker(fn.name, (method,))
+            w.block(fn.body, False)
+            out += [(x["caller"], x["line"], bool(x["lex"])) for x in w.sites if x["target"] == method]
+    return out
+
+
+def last_assign_line(func, attr):
+    """source line (in the file) of the last top-level ``self.<attr> = …`` statement of ``func``"""
+    lines, start = inspect.getsourcelines(func)
+    tree = ast.parse(textwrap.dedent("".join(lines))).body[0]
+    best = None
+    for st in tree.body:
+        if isinstance(st, ast.Assign) and any(_is_self_attr(t, attr) for t in st.targets):
+            best = start + st.lineno - 1
+    return best
 
 
 def gate_lines(channel_cls):
